@@ -137,7 +137,7 @@ CLAIMED = {
          "session of another association; then random multi-fault histories and a burst of sessions that cycles the pools, all next to a crowd of live sessions; one shard per six keeps 200-400 sessions live and aims faults at meter writes "
          "so that a cell released into the wrong pool meets a live holder. After every step TLC evaluates CounterCellsExclusive, MeterCellsExclusive, NotFreeWhileInUse (counter, app-meter, session-meter, tunnel-peer and application IDs used by "
          "switch entries are not free in the plug-in's pools), NoIdTwiceInPool, PeerIdsInUseStayAllocated and FailedWriteMeansRejection.",
-         "Design level: RefCounted.tla (the reference-counted tunnel peers / applications as coded after the repairs, every write may fail) is model-checked on its complete graph, with the original release order as negative control. The pools are read through the guarded snapshot hook (IDs not free, duplicates in queues); a leaked identifier (neither free nor used) is not a violation of the statement and is not flagged; positions k are exhaustive per shape, shapes are sampled. " + TRUST,
+         "Design level: RefCounted.tla (the reference-counted tunnel peers / applications as coded after the repairs, every write may fail) is model-checked on its complete graph, with the original release order as negative control; in the thorough tier Apalache discharges an inductive invariant of it (behaviours of any length). The pools are read through the guarded snapshot hook (IDs not free, duplicates in queues); a leaked identifier (neither free nor used) is not a violation of the statement and is not flagged; positions k are exhaustive per shape, shapes are sampled. " + TRUST,
          "5 C15"),
  "C16": ("TLA+ R-spec P4Valid (conformance of a write to the P4Info) judged by TLC on every update the harness' P4Runtime server received from the real agent; regeneration and byte comparison of the compiled-in constants",
          "Every update of every Write RPC (tables, meters, counters; INSERT / MODIFY / DELETE, also the start-up clearing and the rollback writes) is recorded as sent - ids and byte strings - and TLC evaluates P4Valid!WriteValid against the "
